@@ -1194,7 +1194,17 @@ fn designator_to_asg(
     match get_ast_designator_expression(designator) {
         Some(synast::Expr::Literal(ref literal)) => {
             match literal.kind() {
-                synast::LiteralKind::IntNumber(int_num) => Some(int_num.value().unwrap() as u32),
+                synast::LiteralKind::IntNumber(int_num) => {
+                    // The width is stored as `u32`. A literal that does not fit must not be
+                    // truncated (`4294967297 as u32 == 1`); it is an invalid designator.
+                    match int_num.value().and_then(|value| u32::try_from(value).ok()) {
+                        Some(width) => Some(width),
+                        None => {
+                            context.insert_error(InvalidDesignatorError, literal);
+                            None
+                        }
+                    }
+                }
                 _ => {
                     // FIXME: This error should be done when validating syntax. Before the semantic analysis
                     context.insert_error(ConstIntegerError, literal);
